@@ -183,7 +183,7 @@ class Contract:
     """
 
     def __init__(self, name, fun, params, pre=None, post=None, raises=None, native=None,
-                 world=None, classes=None, loop_specs=None, setup=None, timeout=20.0, domain_ok=True,
+                 world=None, classes=None, loop_specs=None, setup=None, timeout=60.0, domain_ok=True,
                  result_view=None, ghost=(), search=None, describe=None, axioms=None):
         self.name = name
         self.fun = fun
